@@ -169,6 +169,14 @@ func (r *Reporter) Finish() int {
 		fmt.Printf("VIOLATION property=%s replay=%s\n", r.Prop, p)
 		fmt.Printf("  symptom=%s key=%s\n  %s\n", v.Symptom, trunc(v.Key, 400), trunc(v.Msg, 1200))
 	}
+	if len(r.violations) != 0 {
+		bySym := map[string]int{}
+		for _, v := range r.violations {
+			bySym[v.Symptom]++
+		}
+		fmt.Printf("  violations by symptom: %v\n", bySym)
+		r.Coverage["violations_by_symptom"] = bySym
+	}
 	if len(r.violations) > shown {
 		fmt.Printf("  (%d further distinct violations not shown)\n", len(r.violations)-shown)
 	}
